@@ -60,8 +60,8 @@ CHECKS = {
          "'Matching' = CompletePath's origin placement, the index form of keyed elements and model.MatchQ; over-delivery (a leaf selected by overlapping paths sent more than once) is counted, not a violation ('at least once'); valid data only, origins in the prefix; one writer per target in concurrent mode; non-termination judged by a 20 s attributable-stuck rule.",
          "3/C05"),
  "C06": ("exhaustive small-scope + seeded-random model differential on the real match trie / UpdateNotification / Server.Subscribe with counting clients",
-         "Every (query, path) pair over {a,b,*}^<=4 is pushed through the real match trie (Update, UpdateOnce, UpdateNotification) and 'offered' is compared with the compatibility relation of the statement; ctree.Query results are checked to be contained and streamed; every query set of size <= 2 is checked for at-most-once delivery against exhaustive single/multi update/delete notification shapes; seeded random subscribe/unsubscribe/update histories are compared with a model registry (removal, idempotence, sibling clients, re-add, caller-reused query slices); the server's own subscription path construction is driven through the real Server.Subscribe/Server.Update over an in-memory stream and compared with Compat on the index path, with path.CompletePath's snapshot path and with a census of the trie after the RPCs ended. Held = held on those executions.",
-         "model.Compat/IndexPath/IndexPrefix are the specification; plain Update judged for offered/not offered only; ambiguous re-registration histories excluded; the end-of-RPC census uses read-only reflection (availability recorded in the counters; skipped, never a violation, when unavailable); single goroutine at the match level.",
+         "Every (query, path) pair over {a,b,*}^<=4 is pushed through the real match trie (Update, UpdateOnce, UpdateNotification) and 'offered' is compared with the compatibility relation of the statement; ctree.Query results are checked to be contained and streamed; every query set of size <= 2 is checked for at-most-once delivery against exhaustive single/multi update/delete notification shapes; seeded random subscribe/unsubscribe/update histories are compared with a model registry (removal, idempotence, sibling clients, re-add, caller-reused query slices); the server's own subscription path construction is driven through the real Server.Subscribe/Server.Update over an in-memory stream and compared with Compat on the index path, with path.CompletePath's snapshot path and with a census of the trie after the RPCs ended; a concurrent mode dispatches from 2-4 goroutines while clients unsubscribe and checks on an atomic tick clock that no offer to a client begins after its remove function returned. Held = held on those executions.",
+         "model.Compat/IndexPath/IndexPrefix are the specification; plain Update judged for offered/not offered only; ambiguous re-registration histories excluded; the end-of-RPC census uses read-only reflection (availability recorded in the counters; skipped, never a violation, when unavailable); single goroutine at the match level except the concremove mode (schedules not enumerated).",
          "3/C06"),
  "C09": ("reference-model differential monitor over exhaustive + random operation histories on the real ctree.Tree",
          "Every operation of every explored history is executed on the real tree and on a prefix-free-map model and the whole observable state (Walk, WalkSorted, wildcard queries, point lookups) plus the operation's own result is compared after every step. Exhaustive for all histories up to length 4 (5 thorough) over a 24-operation alphabet (incl. a stored element literally named '*'), seeded random beyond. Held = held on those executions.",
